@@ -33,7 +33,7 @@ ASSUMPTIONS = [
 ]
 PROBES = ["invivo_notifications", "invivo_handlers_invoked", "invivo_multi_handler_notifications", "unprocessed_set_out", "lang_filtered", "any_lang_match", "blocked", "data_chained", "unprocessed_kept_data", "unknown_event",
           "flags_multi", "str_lang", "set_lang", "substring_lang", "register_list", "plugin_loaded", "prod_default_table",
-          "no_handler_matched", "listed_handlers", "debug_mode", "reentrant_notify", "registered_during_dispatch", "eventdata_reused"]
+          "no_handler_matched", "listed_handlers", "debug_mode", "reentrant_notify", "registered_during_dispatch", "eventdata_reused", "same_handler_twice", "shared_lang_list"]
 # the same check again, smaller, in interpreters started with assertions stripped (python -O / PYTHONOPTIMIZE=1)
 ENV_VARIANTS = [{"name": "python-O", "env": {"PYTHONOPTIMIZE": "1"}, "runs": {'quick': 3000, 'thorough': 30000}}]
 TIERS = {
@@ -149,9 +149,18 @@ def generate(rng, k):
         n = rng.randint(0, k["max_handlers"])
         pending = []
         for _ in range(n):
-            item = {"event": e, "h": hid, "langs": _gen_langs(rng, k)}
-            regs[e].append(hid)
-            hid += 1
+            if regs[e] and rng.random() < 0.12:
+                # the SAME handler object registered once more for this event (a plugin looping over its languages)
+                item = {"event": e, "h": rng.choice(regs[e]), "langs": _gen_langs(rng, k)}
+                regs[e].append(item["h"])
+            else:
+                item = {"event": e, "h": hid, "langs": _gen_langs(rng, k)}
+                regs[e].append(hid)
+                hid += 1
+            if pending and rng.random() < 0.12 and pending[-1]["langs"]["kind"] == "list":
+                # ... or several registrations handed one and the same language list object
+                item["langs"] = dict(pending[-1]["langs"], share=pending[-1]["langs"].get("share") or f"L{len(ops)}_{len(pending)}")
+                pending[-1]["langs"] = dict(pending[-1]["langs"], share=item["langs"]["share"])
             pending.append(item)
         # some via register(), some via one register_list()
         i = 0
@@ -202,8 +211,16 @@ def generate(rng, k):
 
 # ----------------------------------------------------------------------------- executor
 
+_SHARED = {}
+
+
 def _langs_arg(spec):
     kind, v = spec["kind"], spec["v"]
+    if kind == "list" and spec.get("share"):
+        # one list object passed to several registrations (cleared per run)
+        if spec["share"] not in _SHARED:
+            _SHARED[spec["share"]] = list(v)
+        return _SHARED[spec["share"]]
     if kind == "default":
         return None
     if kind == "str":
@@ -263,6 +280,7 @@ def execute(trace):
     def hit(name, n=1):
         probes[name] = probes.get(name, 0) + n
 
+    _SHARED.clear()
     options = SimpleNamespace(event_handlers=[], debug=bool(k.get("debug")))
     invoked = []          # (hid, in_data seen) for the current notify
     script = {"returns": {}, "sets_out": {}, "n": 0}
@@ -398,6 +416,10 @@ def execute(trace):
                         real_items.append(dict(it, _event=ev))
                         model.setdefault(ev, []).append((it["h"], _model_langs(it["langs"])))
                         lk = it["langs"]["kind"]
+                        if any(h_ == it["h"] for h_, _ in model[ev][:-1]):
+                            hit("same_handler_twice")
+                        if it["langs"].get("share"):
+                            hit("shared_lang_list")
                         if lk == "str":
                             hit("str_lang")
                         elif lk == "set":
